@@ -79,6 +79,16 @@ def _check_arms(ctx, eng, paths, cv, driver):
         # C14/C07: a special source is never opened
         if kind == "Special" and any(e.name in ("File::open", "File::create", "CopyHandle::new", "copy_file") for e in p.trace):
             ctx.fail("C14/C07: special files are recreated with mknod, never opened or read", str(names))
+        # C03: for a Copy operation the worker itself performs no file-system mutation: everything goes through the
+        # CopyHandle (whose own refusal/ordering lemmas cover aliasing); in particular nothing is removed "to clean up"
+        # after a failure, because the destination may designate the source itself
+        if kind == "Copy":
+            stray = [e for e in p.trace if e.name in ("remove_file", "rename", "symlink", "create_dir_all", "copy_node", "File::create", "File::open_opts")]
+            if stray:
+                ctx.fail("C03: a worker never removes, renames or creates anything itself for a Copy operation (the destination may be an alias of the source)",
+                         "%s in the Copy arm; trace %s" % (stray[0].name, names))
+            else:
+                ctx.passed("C03: a worker never removes, renames or creates anything itself for a Copy operation (the destination may be an alias of the source)")
         if kind == "closed":
             kinds.add("closed")
             (ctx.passed if is_ok(p.ret) and rec == ["closed"] else ctx.fail)("C07: a closed work queue ends the worker normally", str(names))
